@@ -28,6 +28,10 @@ EncListDangling(cs, k) == Vec16(EncCfgDangling(cs[1], k) \o Flat([i \in 1..(Len(
 \* the ECHConfigContents of c, and the config / one-config list whose contents are cut to their first n bytes with the
 \* enclosing lengths consistent (well-framed at list and config level; the contents themselves are truncated)
 Contents(c) == U8(c.id) \o U16(c.kem) \o Vec16(c.pk) \o Vec16(EncSuites(c.suites)) \o U8(Min(Len(c.name) + 16, 255)) \o Vec8(c.name) \o U16(0)
+\* the same contents carrying one (unknown, non-mandatory) extension - other implementations emit such configs
+ExtData == <<127, 1, 0, 3, 1, 2, 3>>
+ContentsX(c) == U8(c.id) \o U16(c.kem) \o Vec16(c.pk) \o Vec16(EncSuites(c.suites)) \o U8(Min(Len(c.name) + 16, 255)) \o Vec8(c.name) \o Vec16(ExtData)
+EncListCutX(c, n) == Vec16(U16(65037) \o Vec16(SubSeq(ContentsX(c), 1, n)))
 EncListCut(c, n) == Vec16(U16(65037) \o Vec16(SubSeq(Contents(c), 1, n)))
 EncList(cs) == Vec16(Flat([i \in 1..Len(cs) |-> EncCfg(cs[i])]))
 
@@ -79,8 +83,11 @@ RoundTrip == LET b == EncList(cs) p == ParseList(b) IN p.ok /\ p.v = [i \in 1..L
 TruncRejected == LET b == EncList(cs) IN \A n \in 0..(Len(b) - 1) : ~ParseList(SubSeq(b, 1, n)).ok
 CutDomain == Len(cs) = 1 /\ Len(cs[1].name) <= 2
 ContentsCutRejected == CutDomain => \A n \in 0..(Len(Contents(cs[1])) - 1) : ~ParseList(EncListCut(cs[1], n)).ok
+ContentsCutRejectedX == CutDomain => /\ \A n \in 0..(Len(ContentsX(cs[1])) - 1) : ~ParseList(EncListCutX(cs[1], n)).ok
+                                      /\ LET p == ParseList(EncListCutX(cs[1], Len(ContentsX(cs[1])))) IN p.ok /\ p.v = <<Derived(cs[1])>>
 DanglingRejected == cs # <<>> => \A k \in 1..3 : ~ParseList(EncListDangling(cs, k)).ok
 Emit == PrintT(<<"CASE", ToJson([cfgs |-> cs, bytes |-> EncList(cs),
                                  cuts |-> IF CutDomain THEN [n \in 1..Len(Contents(cs[1])) |-> EncListCut(cs[1], n - 1)] ELSE <<>>,
+                                 xcuts |-> IF CutDomain THEN [n \in 1..(Len(ContentsX(cs[1])) + 1) |-> EncListCutX(cs[1], n - 1)] ELSE <<>>,
                                  dangling |-> IF cs = <<>> THEN <<>> ELSE [k \in 1..3 |-> EncListDangling(cs, k)]])>>)
 ==========================================================================
